@@ -1,8 +1,46 @@
-/- line-protocol engine `parse` (stub: answers bad-op until the engine is built) -/
-namespace XrayDriver
+/- line-protocol engine `parse`: the expression syntax model (C02).
 
+Request:  parse expr <source text, code points in decimal joined by `.`>
+Response: the dump of the desugared static expression (same format as the hook `parse_expr_dump`),
+          `syntax-error`, `unsupported <why>` or `oof`.
+Request:  parse core <source text …>     Response: `ok` when the expression maps into the core model, else `no`
+Request:  parse climb <minimal item list: atoms `pN`, operator rule names>
+Response: the climber's tree `(RULE l r)` / `pN`, or `none`
+-/
+import XrayModel.Syntax
+open XrayModel.Syntax
+namespace XrayDriver.ParseE
+
+def decodeSrc (a : String) : Option String :=
+  if a.isEmpty then some ""
+  else ((a.splitOn ".").mapM (fun (t : String) => t.toNat?.map Char.ofNat)).map String.ofList
+
+def showPR (r : PR SExpr) : String := r.show
+
+def showTree : Tree String → String
+  | .leaf a => a
+  | .node r l rt => "(" ++ r ++ " " ++ showTree l ++ " " ++ showTree rt ++ ")"
+
+def toItem (s : String) : Item String :=
+  if s.startsWith "p" then .prim s else .op s
+
+end XrayDriver.ParseE
+
+namespace XrayDriver
+open ParseE in
 def parseEngine (f : String) (args : List String) : String :=
   match f, args with
+  | "expr", [a] => match decodeSrc a with
+      | some s => showPR (parse s)
+      | none => "bad-op"
+  | "core", [a] => match decodeSrc a with
+      | some s => match parse s with
+          | .ok e _ => if (toCore e).isSome then "ok" else "no"
+          | r => showPR r
+      | none => "bad-op"
+  | "climb", items => match climb climberInfo (items.map toItem) with
+      | some t => showTree t
+      | none => "none"
   | _, _ => "bad-op"
 
 end XrayDriver
